@@ -149,8 +149,11 @@ Inductive act :=
 | ACheckFull (t : nat)
 | AReadT (t : nat)
 | ARaiseExists
-| ASameFileNul (p q : path).   (* os.path.samefile on a path with an embedded NUL: ValueError, NOT caught by
+| ASameFileNul (p q : path)   (* os.path.samefile on a path with an embedded NUL: ValueError, NOT caught by
                                   _paths_refer_to_same_file (it catches OSError only) *)
+| ASameFileAlias (p q : path). (* os.path.samefile on another HARD LINK of q's inode: True.  Hard links are given
+                                  statically (sc_aliases); entries of the path map are otherwise independent
+                                  files, which is exact as long as nothing is written in place *)
 
 Definition counted (a : act) : bool :=
   match a with
@@ -297,6 +300,7 @@ Definition sem (a : act) (s : st) : st * res unit :=
       end
   | ARaiseExists => (s, Raise OSError)
   | ASameFileNul p q => (log (OSameFileErr p q) s, Raise ValueError)
+  | ASameFileAlias p q => (log (OSameFile p q true) s, Ok tt)
   end.
 
 (* Exception kinds.  The shared enum (Base/Exn.v) reports everything outside the listed Exception classes
@@ -369,6 +373,7 @@ Record scn := {
   sc_chunk : nat;                      (* _core._EXTERNAL_TENSOR_COPY_CHUNK_SIZE *)
   sc_cb : option (option (nat * exn)); (* no callback | callback (raising e at index j) *)
   sc_cbbase : nat;                     (* global index of the first tensor of this file (sharded saves) *)
+  sc_aliases : list path;              (* other hard links of the destination's inode (realpaths) *)
 }.
 
 Fixpoint chunk_plan (fuel rel remaining c : nat) : list (nat * nat) :=
@@ -422,15 +427,38 @@ Definition tpath (tens : list tstate) (h : nat) : path :=
 Definition dest_of (fs : fsT) (req : path) : path := if is_link fs req then resolve fs req else req.
 Definition tmpf_of (sc : scn) (dest : path) : path := sc_tmpd sc ++ [last dest 0%N].
 
+Definition is_alias (fs : fsT) (sc : scn) (p : path) : bool :=
+  existsb (path_eqb (resolve fs p)) (sc_aliases sc).
+
+(* tensors that pass os.path.samefile with the destination: released before the rename *)
 Definition overwritten (fs : fsT) (tens : list tstate) (sc : scn) : list nat :=
-  filter (fun h => samefile fs (tpath tens h) (dest_of fs (sc_req sc))) (ext_handles (sc_tensors sc)).
+  filter (fun h => samefile fs (tpath tens h) (dest_of fs (sc_req sc)) || is_alias fs sc (tpath tens h))
+         (ext_handles (sc_tensors sc)).
+
+(* ... of which only those whose own path IS the destination are invalidated afterwards:
+   os.path.realpath(tensor.path) == os.path.realpath(destination_path) *)
+Definition realpath_is_dest (fs : fsT) (tens : list tstate) (sc : scn) (h : nat) : bool :=
+  path_eqb (resolve fs (tpath tens h)) (dest_of fs (sc_req sc)).
+Definition invalidated (fs : fsT) (tens : list tstate) (sc : scn) : list nat :=
+  filter (realpath_is_dest fs tens sc) (overwritten fs tens sc).
+
+Definition probe_act (fs : fsT) (tens : list tstate) (sc : scn) (h : nat) : act :=
+  let p := tpath tens h in
+  let dest := dest_of fs (sc_req sc) in
+  if has_nul p then ASameFileNul p dest
+  else if is_alias fs sc p then ASameFileAlias p dest else ASameFile p dest.
+
+Definition plan_post (fs : fsT) (tens : list tstate) (sc : scn) : list act :=
+  ARealpath (dest_of fs (sc_req sc))
+  :: flat_map (fun h => ARealpath (tpath tens h)
+                        :: (if realpath_is_dest fs tens sc h then [AInvalidate h] else []))
+              (overwritten fs tens sc).
 
 Definition plan_pre (fs : fsT) (tens : list tstate) (sc : scn) : list act :=
   let dest := dest_of fs (sc_req sc) in
   AIsLink (sc_req sc) :: (if is_link fs (sc_req sc) then [ARealpath (sc_req sc)] else [])
-  ++ AMkdtemp (sc_tmpd sc)
-  :: map (fun h => if has_nul (tpath tens h) then ASameFileNul (tpath tens h) dest
-                   else ASameFile (tpath tens h) dest) (ext_handles (sc_tensors sc)).
+  ++ map (probe_act fs tens sc) (ext_handles (sc_tensors sc))
+  ++ [AMkdtemp (sc_tmpd sc)].
 
 Definition plan_tail (fs : fsT) (tens : list tstate) (sc : scn) : list act :=
   let dest := dest_of fs (sc_req sc) in
@@ -447,7 +475,7 @@ Definition plan_single (fs : fsT) (tens : list tstate) (sc : scn) : prog :=
                                  (PActs [AClose])))
                      (PActs (plan_tail fs tens sc)))
                (PActs [ARemove tmpf; ARmdir (sc_tmpd sc)]))
-         (PActs (map AInvalidate (overwritten fs tens sc)))).
+         (PActs (plan_post fs tens sc))).
 
 (* unload_from_model: small external tensors are read into memory and released first *)
 Definition plan_small (small : list nat) : list act :=
